@@ -652,3 +652,83 @@ func wholeProgramQueries(r *Run) {
 		r.Fail("whole-program control failed: only %d of %d transaction handlers reach a store write — the search is too narrow to trust its negative answers", nTxReach, nTx)
 	}
 }
+
+// wholeProgramEffectFilter (C04 thorough): rule W3 — the name-based effect filter that generates the guard,
+// grant, mirror and flush obligations of the quick rules (isCosmosEffect) misses nothing that writes state.
+func wholeProgramEffectFilter(r *Run) {
+	P := r.P
+	r.Rule("W3", "whole-program (LoadAllSyntax + VTA with per-site callback binding): in the handlers of wired stateful precompiles every call that can reach a Set/Delete of a cosmos-sdk store implementation is one the quick rules classify as a Cosmos-side effect (so an identity-guard / grant / mirror / classification obligation exists for it), runs on a discarded cache context, or is a tabled write that is part of the precompile mechanism itself (StateDB flush, gas accounting)")
+	w, err := loadWhole(P.RepoDir, P.Tags)
+	if err != nil {
+		r.Fail("whole-program load failed: %v", err)
+		return
+	}
+	targets := w.storeWriters()
+	if len(targets) < 4 {
+		r.Fail("whole-program premise: only %d store Set/Delete implementations found", len(targets))
+		return
+	}
+	isT := map[*ssa.Function]bool{}
+	for _, t := range targets {
+		isT[t] = true
+	}
+	R := w.reachers(targets)
+	nSites, nEff, nWrites := 0, 0, 0
+	for _, m := range wiredPrecompiles(r) {
+		if !m.Stateful {
+			continue
+		}
+		for _, h := range m.Handlers {
+			if h.Fn == nil {
+				continue
+			}
+			idx := map[string]int{}
+			for _, s := range externalSites(h.Fn, 3, map[*ssa.Function]bool{}) {
+				nSites++
+				if isCosmosEffect(s.Info) {
+					nEff++
+					continue
+				}
+				if writesDiscardedCacheCtx(s.Call) {
+					continue
+				}
+				wsites, ok := w.sitesAt(P, s.Call)
+				if !ok {
+					continue
+				}
+				var hit []string
+				for _, ws := range wsites {
+					if ch := w.reachFromSite(ws, R, isT); ch != nil {
+						hit = ch
+						break
+					}
+				}
+				if hit == nil {
+					continue
+				}
+				nWrites++
+				name := s.Info.Recv + "." + s.Info.Name
+				if s.Info.Recv == "" {
+					name = s.Info.Name
+				}
+				idx[name]++
+				inst := fmt.Sprintf("%s#%s-%d", fnID(h.Fn), name, idx[name])
+				if why, ok := mechanismWrites[name]; ok {
+					r.OK("W3", inst, P.Pos(instrPos(s.Call)), "tabled mechanism write: "+why)
+					continue
+				}
+				r.Bad("W3", inst, P.Pos(instrPos(s.Call)), s.Info.String()+" can reach a store write but the quick rules do not treat it as a Cosmos-side effect: no identity-guard, grant, mirror or classification obligation is generated for it", hit...)
+			}
+		}
+	}
+	if nWrites == 0 {
+		r.OK("W3", "effect-filter-complete", "", fmt.Sprintf("%d handler call sites examined: every one that can reach a store write is classified as a Cosmos-side effect by the quick rules (%d such sites)", nSites, nEff))
+	}
+	r.Count("W3 handler call sites examined", nSites)
+	r.Count("W3 call sites the quick rules classify as Cosmos-side effects", nEff)
+	r.Count("W3 other call sites that reach a store write", nWrites)
+	r.Floor("W3", "handler call sites examined through the whole program", nSites, 100)
+}
+
+// mechanismWrites: calls in precompile handlers that write to a store as part of the precompile mechanism.
+var mechanismWrites = map[string]string{}
